@@ -502,6 +502,69 @@ pub fn run_dec(tier: &str, seed: u64, profile: &str, out: &mut Out) {
         }
         emit(out, "charsetBody", vec![241, eci + 1], streams, true);
     }
+    // Base256 length fields: declared length L (one- and two-codeword forms, randomised at the right position) against
+    // every payload length L-3..L+3, after 0, 1 or 28 ASCII codewords; also the "to the end of the symbol" length 0
+    for pre in [0usize, 1, 28] {
+        let mut streams = Vec::new();
+        for l in [0usize, 1, 2, 5, 248, 249, 250, 251, 252, 499, 500, 501, 749, 750, 1000, 1499, 1500, 1555, 1556] {
+            for two_cw in [false, true] {
+                if (!two_cw && l > 249) || (two_cw && l > 0 && l < 250 && l != 5) {
+                    continue;
+                }
+                for delta in -3i64..=3 {
+                    let payload = l as i64 + delta;
+                    if payload < 0 {
+                        continue;
+                    }
+                    let mut s: Vec<u8> = (0..pre).map(|i| 66 + (i % 20) as u8).collect();
+                    s.push(231);
+                    let field: Vec<u8> = if two_cw { vec![(l / 250 + 249) as u8, (l % 250) as u8] } else { vec![l as u8] };
+                    for v in field.into_iter().chain((0..payload).map(|i| (i * 7 + 1) as u8)) {
+                        let pos = s.len() + 1;
+                        s.push(rnd255(v, pos));
+                    }
+                    streams.push(s);
+                }
+            }
+        }
+        emit(out, "b256len", vec![pre as u8], streams, false);
+    }
+    // conformant streams (the crate's own encoder, every mode subset that forces one scheme) cut at every position, and with
+    // one codeword replaced by a boundary value
+    {
+        let inputs: Vec<Vec<u8>> = vec![
+            b"ABCDEFGHIJKLMNOPQ".to_vec(),
+            b"abcdefghij klmnopq".to_vec(),
+            b"AB*>\rCD0123456789XYZ".to_vec(),
+            b".:-/.:-/ABCD1234@@".to_vec(),
+            (0..40u8).map(|i| 0x80 + i * 3).collect(),
+            (0..300usize).map(|i| (0xA0 + (i * 5) % 90) as u8).collect(),
+            b"A1b2\x80\x81 {|}~\x7f\x00\x1f!".to_vec(),
+            b"[)>\x1e05\x1dHELLO123\x1e\x04".to_vec(),
+            class_string(&mut rng, Class::Any, 60),
+            random_runs(&mut rng, 90),
+        ];
+        for inp in &inputs {
+            for mask in [63u8, 1 | 2, 1 | 4, 1 | 8, 1 | 16, 1 | 32, 2 | 4, 32] {
+                let i2 = inp.clone();
+                let enc = match guarded(move || data::encode_data(&i2, &SymbolList::default(), None, modes_from_mask(mask), true)) {
+                    Outcome::Val(Ok((cw, _))) => cw,
+                    _ => continue,
+                };
+                let cut: Vec<Vec<u8>> = (0..=enc.len()).map(|k| enc[..k].to_vec()).collect();
+                emit(out, "truncatedValid", vec![mask], cut, false);
+                let mut mutated = Vec::new();
+                for k in 0..enc.len().min(120) {
+                    for v in [0u8, 1, 129, 130, 229, 230, 231, 235, 238, 239, 240, 241, 254, 255] {
+                        let mut s = enc.clone();
+                        s[k] = v;
+                        mutated.push(s);
+                    }
+                }
+                emit(out, "mutatedValid", vec![mask], mutated, false);
+            }
+        }
+    }
     // random streams
     let nb = if thorough { 400 } else { 60 };
     for _ in 0..nb {
